@@ -307,6 +307,31 @@ pub fn swap_history(out: &mut crate::Out, tag: &str, seed: u64, net: NetID, bloc
         }
         d.seal_next(Some(true));
     }
+    // one pool named by both of its valid names (short and long form) in one block, for each phase: the pool is settled once
+    for phase in 0..3 {
+        let k = PoolKey::new(Denom::Mel, Denom::Sym);
+        let mut batch: Vec<Transaction> = vec![];
+        let mut why = vec![];
+        for spell in [0u32, 6] {
+            let used: Vec<CoinID> = batch.iter().flat_map(|t| t.inputs.clone()).collect();
+            let req = match phase {
+                0 => swap_tx(&mut d, k, true, 3, spell, TxKind::Swap, &used),
+                1 => deposit_tx(&mut d, k, 3, 3, spell, &used),
+                _ => withdraw_tx(&mut d, k, true, spell, &used),
+            };
+            if let Some((t, w)) = req {
+                if !t.inputs.iter().any(|c| used.contains(c)) {
+                    batch.push(t);
+                    why.push(w);
+                }
+            }
+        }
+        // (one batch each: a request that its own covenant refuses must not take the other with it)
+        for (t, w) in batch.iter().zip(why.iter()) {
+            d.apply(std::slice::from_ref(t), 0, json!({"why": format!("one pool under both of its names in one block: {}", w)}));
+        }
+        d.seal_next(Some(true));
+    }
     // a LiqWithdraw with a change output (two outputs) is not a withdrawal request: its coins stay as they are
     for k in [PoolKey::new(Denom::Mel, Denom::Sym), PoolKey::new(Denom::Mel, Denom::Erg)] {
         if let Some((t, w)) = deposit_tx(&mut d, k, 4, 4, 0, &[]) {
